@@ -101,9 +101,11 @@ func c09Scenario(rng *rand.Rand, senders, perSender, nsubs int) (ref []int, subs
 	for k := 0; k < senders; k++ {
 		swg.Add(1)
 		h := tr.RegisterSender()
+		lseed := rng.Int63()
 		go func(k int) {
 			defer swg.Done()
 			defer h.Done()
+			rng := rand.New(rand.NewSource(lseed)) // a generator of its own: the shared one is not safe for concurrent use
 			for j := 1; j <= perSender; j++ {
 				id := (k+1)*64 + j
 				a := tick()
